@@ -12,7 +12,7 @@ from ..accept import accept_set
 from ..model import AnalysisError
 from ..nodes import DESER_MOD
 from ..pathcond import path_condition as _pc
-from ..util import dotted, norm, short, walk_no_nested
+from ..util import flatten_boolop, dotted, norm, short, walk_no_nested
 from ..visitors import called_hooks, classify_impl, totality
 
 MV = "apischema.deserialization.DeserializationMethodVisitor"
@@ -201,6 +201,30 @@ def check(ctx):
     # ---------------- R8: every source of a schema is enforced by the deserializer
     ctx.rule("C06.R8", "each source of schema() metadata the schema builder merges (type, generic origin, Annotated, field, per-call) is merged as constraints by the method compiler, and the merged factory is kept", floor=10)
     schema_source_rule(ctx)
+
+    # ---------------- R14: the pattern inferred for a `properties(...)` field
+    ctx.rule("C06.R14", "the pattern inferred for a `properties(...)` field is the single `patternProperties` key of the schema of the field's own (mapping) type, and only when that schema has no additionalProperties: the deserializer routes the keys with it and the schema publishes it - both call infer_pattern with the field type and the default conversion", floor=3)
+    ip = model.func("apischema.json_schema.patterns.infer_pattern")
+    rets14 = [r for r in ast.walk(ip.node) if isinstance(r, ast.Return) and r.value is not None]
+    from ..pathcond import parents_of as _po14, path_condition as _pc14
+    pm14 = _po14(ip.node)
+    ok14 = len(rets14) == 1 and norm(rets14[0].value) == "next(iter(prop_schema['patternProperties']))"
+    conj14 = set()
+    if len(rets14) == 1:
+        c14 = _pc14(ip.node, rets14[0], pm14)
+        conj14 = {norm(x) for x in flatten_boolop(c14, ast.And)} if c14 is not None else set()
+    want14 = {"len(prop_schema.get('patternProperties', {})) == 1", "'additionalProperties' not in prop_schema"}
+    ctx.check(ok14 and want14 <= conj14, "C06.R14", f"{ip.qualname}:single-pattern", None,
+              f"the inferred pattern is returned under {sorted(conj14)}: it must be the only patternProperties key of a schema without additionalProperties (otherwise the pattern field would claim keys its type does not constrain, or one pattern among several)",
+              ip, rets14[0] if rets14 else ip.node, detail=" and ".join(sorted(want14)))
+    ctx.check(any(isinstance(r, ast.Raise) and "TypeError" in norm(r) for r in ast.walk(ip.node)), "C06.R14", f"{ip.qualname}:refusal", None, "a type without a single key pattern is no longer refused", ip, ip.node, detail="raise TypeError", nontrivial=False)
+    users = []
+    for fi in model.functions.values():
+        for c in walk_no_nested(fi.node):
+            if isinstance(c, ast.Call) and dotted(c.func) == "infer_pattern":
+                users.append((fi, c))
+    ctx.check(len(users) >= 2 and all(len(c.args) == 2 and norm(c.args[0]) == "field.type" and norm(c.args[1]) == "self.default_conversion" for _, c in users), "C06.R14", "infer_pattern:callers", None,
+              f"the callers of infer_pattern ({[f.qualname.split('.')[-2] + '.' + f.name for f, _ in users]}) do not all pass (field.type, self.default_conversion): the deserializer and the schema would infer different patterns", None, None, detail="infer_pattern(field.type, self.default_conversion) on both sides")
 
 
 SOURCE_KINDS = {
@@ -409,6 +433,8 @@ def keyword_filter_rule(ctx):
 
 
 def mutants(mb):
+    mb.add_text("infer-pattern-ignores-additional", "apischema/json_schema/patterns.py", "            len(prop_schema.get(\"patternProperties\", {})) == 1\n            and \"additionalProperties\" not in prop_schema\n", "            len(prop_schema.get(\"patternProperties\", {})) == 1\n", "C06.R14", "single-pattern")
+    mb.add_text("infer-pattern-first-of-many", "apischema/json_schema/patterns.py", "            len(prop_schema.get(\"patternProperties\", {})) == 1\n", "            len(prop_schema.get(\"patternProperties\", {})) >= 1\n", "C06.R14", "single-pattern")
     M = "apischema/deserialization/methods.py"
     D = "apischema/deserialization/__init__.py"
     J = "apischema/json_schema/schema.py"
